@@ -246,6 +246,24 @@ def grammar(F, rep, T):
                 selfdel = e["k"] in ("Paren", "Call", "Name", "Number", "String", "Const", "Index", "Table")
                 rep.ob("GRAMMAR", name + "|self-delimiting", selfdel,
                        "the inlinable value of IR::%s is %s, so substituting it as an operand cannot regroup" % (name, "parenthesised / atomic / a call" if selfdel else "an open operator expression"))
+    # arms with a guard are alternatives for some payloads: the same obligations hold for their text
+    for i, (name, guard, refs, gs) in enumerate(T.G):
+        key = "%s?guard#%d" % (name, i + 1)
+        if gs["dyn"]:
+            rep.ob("GRAMMAR", key + "|analysable", False, "the guarded arm of IR::%s writes a part the evaluator cannot follow" % name)
+            continue
+        pre, suf = CONTEXT.get(name, ("", ""))
+        text = instantiate(gs["parts_many"])
+        try:
+            if text.strip():
+                luaparse.parse(pre + text + suf)
+            if gs["value"] is not None:
+                e = luaparse.parse_expr(instantiate(gs["value"]))
+                if e["k"] not in ("Paren", "Call", "Name", "Number", "String", "Const", "Index", "Table"):
+                    raise luaparse.LuaSyntaxError("not self-delimiting")
+            rep.ob("GRAMMAR", key, True, "the guarded arm of IR::%s (`if %s`) writes `%s`: valid Lua, value self-delimiting" % (name, pp(guard), gs["text_many"]))
+        except luaparse.LuaSyntaxError as ex:
+            rep.ob("GRAMMAR", key, False, "the guarded arm of IR::%s (`if %s`) writes `%s`: %s" % (name, pp(guard), gs["text_many"], ex))
     # the prologue and the line terminator
     for ev in T.T.prologue:
         if ev[0] == "if-some":
